@@ -57,13 +57,15 @@ AccVal(md, nd, s) ==
      [] s.k = "checked" -> IF HasLink(nd, s.l) THEN <<nd.links[s.l]>> ELSE Refused
      [] s.k = "optional" -> IF HasLink(nd, s.l) THEN <<nd.links[s.l]>> ELSE <<0>>
      [] s.k = "pushed" -> IF HasLink(nd, s.l) THEN nd.links[s.l] ELSE <<>>
+     [] s.k = "refused" -> Refused          \* nothing the client can reach ever sets it
      [] s.k = "absent" -> <<0>>
      [] s.k = "empty" -> <<>>
 
 \* everything the interface must answer about a created node
 Expected(md, id) ==
    LET nd == M(md, id)  F == Factory[nd.f] IN
-   [cat |-> F.cat, acc |-> [x \in DOMAIN F.acc |-> AccVal(md, nd, F.acc[x])], type |-> TypeVal(md, nd)]
+   [cat |-> F.cat, acc |-> [x \in DOMAIN F.acc |-> IF F.acc[x].k = "self" THEN <<id>> ELSE AccVal(md, nd, F.acc[x])],
+    type |-> TypeVal(md, nd)]
 
 MkInit == made = <<>> /\ mklast = [op |-> "init", f |-> "", a |-> <<>>, n |-> 0, l |-> "", v |-> 0, r |-> 0]
 
